@@ -249,7 +249,7 @@ func c14Paths(c *Case) {
 			if mm == nil {
 				continue
 			}
-			ce2, err2 := xpath.CompileWithNS(src, mm)
+			ce2, err2 := safeCompileNS(src, mm)
 			c.Rep.Evals++
 			if err2 != nil {
 				dd := det()
